@@ -40,7 +40,7 @@ ASSUMPTIONS = ["atoms' declared separability is truthful (1->1 leaves separable,
 
 
 def _build(case):
-    frames = [G.frame_obj(f["name"], f["naxes"]) if f.get("obj", 1) is not None else f["name"] for f in case["frames"]]
+    frames = [G.frame_obj(f["name"], f["naxes"], f.get("order")) if f.get("obj", 1) is not None else f["name"] for f in case["frames"]]
     w = gw.WCS([(fr_, None if t is None else G.build(t)) for fr_, t in zip(frames, case["trs"])])
     if case.get("box"):
         b = tuple((float(G.fr(lo)), float(G.fr(hi))) for lo, hi in case["box"])
@@ -343,6 +343,13 @@ def gen(rng, tier):
             f["obj"] = 1
         if rng.random() < 0.25:
             frames[-1]["obj"] = None        # the output frame given only by name: dimension counts come from the transforms
+        elif frames[-1]["naxes"] > 1 and rng.random() < 0.4:
+            # a lone (non-composite) output frame whose axes_order is not the identity: the values interface and the correlation matrix
+            # follow the transform's outputs
+            o = list(range(frames[-1]["naxes"]))
+            while o == sorted(o):
+                rng.shuffle(o)
+            frames[-1]["order"] = o
         pts = [_pt(rng, dims[0]) for _ in range(3)]
         # world points: images of other pixel points, so the inverse direction sees non-integral pixels
         world = []
